@@ -32,6 +32,10 @@ def templates(tier, seed=0):
     for n in range(0, N):
         for m in range(0, 3):
             ts.append({'name': 'concat-index-%d-%d' % (n, m), 'src': 'xs := %s\nys := %s\nzs := xs + ys\nprint(zs[@h0@])\nprint(zs == %s)\n' % (clist(n, 10), clist(m, 20), clist(n, 10)[:-1] + (', ' if n and m else '') + clist(m, 20)[1:])})
+    # the right-hand side of a range assignment is the list itself, an alias of it, or a slice of it: same rules (length must match)
+    for n in (2, 3):
+        L = '[' + ', '.join(str(10 * (k + 1)) for k in range(n)) + ']'
+        ts.append({'name': 'list-range-assign-self-%d' % n, 'src': 'xs := %s\nys := xs\nif @b0@ {\n    xs[@h0@:@h1@] = xs\n} else if @b1@ {\n    xs[@h0@:@h1@] = ys\n} else if @b2@ {\n    xs[@h0@:] = xs\n} else {\n    xs[:@h1@] = ys[1:]\n}\nprint(xs)\nprint(ys)\n' % L})
     ts.append({'name': 'concat-empty-frame', 'src': 'xs := [1, 2, 3]\nys := xs + []\nys[@h0@] = 9\nprint(xs)\nprint(ys)\nzs := [] + xs\nzs[0:1] = [7]\nprint(xs)\n'})
     ts.append({'name': 'str-concat-index', 'src': 's := "ab" + "cde"\nprint(s[@h0@])\nprint(s[@h0@:])\n'})
     # strings with multi-byte characters: byte-indexed; observations avoid printing partial characters
